@@ -78,7 +78,7 @@ def model_check(work, scope, props, hist, mode="safety", timeout=1500):
         if mode == "live":
             vlib.write_cfg(os.path.join(d, cfg), spec="LiveSpec", constants=consts, properties=["Terminates"])
         else:
-            vlib.write_cfg(os.path.join(d, cfg), constants=consts, invariants=["StateOK"], properties=["StepOK"],
+            vlib.write_cfg(os.path.join(d, cfg), constants=consts, invariants=["StateOK"] + (["StructOK"] if "C01" in props else []), properties=["StepOK"],
                            view="CmpView" if mode == "cmp" else "PropView")
         t0 = time.time()
         rc, out = vlib.tlc(d, "MCHoldem.tla", cfg, workers=vlib.NCPU, timeout=timeout)
@@ -355,8 +355,11 @@ def engine_check(prop, tier, seed, work, replay):
             ls = vlib.read_lines(f, 1, 12)
             samples.append({"file": os.path.basename(f), "calls": [[x["op"], x["seat"], x["x"], x["err"], x["state"]["ev"]] for x in ls]})
     runs = sum(1 for _ in [0]) and cnt.get("runs", 0) + res.get("chunks", 0)
+    # C01, thorough tier: the TLAPS proof that Pay - the one chip-moving operator of the model - keeps the chip identity in EVERY state
+    proof = vlib.tlaps_proof(work, "PayProof.tla") if prop == "C01" and tier == "thorough" else None
     coverage = {
         "states": sum(m["distinct"] for m in mcs), "transitions": sum(m["generated"] for m in mcs),
+        "tlaps_proof": proof,
         "traces_validated_against_impl": int(runs),
         "samples": samples[:3],
         "model_checking": [{"scope": m["scope"], "distinct_states": m["distinct"], "generated": m["generated"],
